@@ -95,7 +95,8 @@ func runCheck(P *Program, verif, prop, tier string, seed int, verbose bool, t0 t
 		}
 		failed = append(failed, o)
 	}
-	// failed obligations: known finding? else violation
+	// failed obligations: known finding? else violation (replays run in parallel)
+	var viol []*Obligation
 	for _, o := range failed {
 		kf := known.match(prop, o.Name)
 		if kf != nil {
@@ -107,13 +108,16 @@ func runCheck(P *Program, verif, prop, tier string, seed int, verbose bool, t0 t
 			}
 			o.Model += "\n" + detail
 		}
+		viol = append(viol, o)
+	}
+	paths := writeReplays(P, replayDir, prop, viol)
+	for i, o := range viol {
 		violations++
-		path := writeReplay(P, replayDir, prop, o)
 		suffix := ""
 		if !o.replayed {
 			suffix = " no-failing-input-found"
 		}
-		fmt.Printf("VIOLATION property=%s replay=%s obligation=%s answer=%s%s\n", prop, path, o.Name, o.Answer, suffix)
+		fmt.Printf("VIOLATION property=%s replay=%s obligation=%s answer=%s%s\n", prop, paths[i], o.Name, o.Answer, suffix)
 	}
 	var kh []string
 	for k := range knownHits {
@@ -280,7 +284,7 @@ func (P *Program) recheckKnown(kf *KnownFinding, o *Obligation, dir string, time
 	if o.regionScript == "" {
 		return false, "known finding has a region but the obligation carries no region script"
 	}
-	r := solve(o.regionScript, dir, o.Name+"_outside_region", timeout, true, false)
+	r := solve(o.regionScript, dir, o.Name+"_outside_region", timeout, nil, false)
 	if r.answer == "unsat" {
 		return true, ""
 	}
@@ -294,6 +298,17 @@ var reDefine = regexp.MustCompile(`\(define-fun\s+(\S+)\s+\(\)\s+`)
 // parseModel extracts constant definitions "name -> value text" from a solver model.
 func parseModel(out string) map[string]string {
 	res := map[string]string{}
+	// get-value format: ((term value) (term value) ...)
+	if i := strings.Index(out, "(("); i >= 0 && !strings.Contains(out, "(define-fun") {
+		if tree, err := parseSx(out[i:]); err == nil {
+			for _, pair := range tree.list {
+				if len(pair.list) == 2 {
+					res[pair.list[0].String()] = pair.list[1].String()
+				}
+			}
+		}
+		return res
+	}
 	idx := reDefine.FindAllStringSubmatchIndex(out, -1)
 	for _, m := range idx {
 		name := out[m[2]:m[3]]
